@@ -14,6 +14,7 @@ import Driver.XmlDrv
 import Driver.FaultsDrv
 import Driver.LegsDrv
 import Driver.SigDrv
+import Driver.XmlBufDrv
 open Cgreen.Drv
 
 /-- Read all of stdin as lines. -/
@@ -55,6 +56,9 @@ def main (args : List String) : IO UInt32 := do
     return 0
   | ["sigint"] =>
     for l in lines do out.putStrLn (Cgreen.Drv.SG.evalLine l)
+    return 0
+  | ["xmlbuf"] =>
+    for l in lines do out.putStrLn (Cgreen.Drv.XB.evalLine l)
     return 0
   | ["timeout"] =>
     for l in lines do out.putStrLn (Cgreen.Drv.TM.evalLine l)
